@@ -1,6 +1,7 @@
 import Verif.Proofs.CssGrammar
 import Verif.Proofs.CssSel
 import Verif.Proofs.CssShorthand
+import Verif.Proofs.CssBackground
 import Verif.Model.CssShorthand
 import Verif.Spec.CssGrammarSpec
 /-!
@@ -104,6 +105,16 @@ example : importURL "url( \"x\" )".toList = "\"x\"".toList := by decide
 example : importURL "url(  )".toList = "\"\"".toList := by decide
 example : importURL "url('a b.css')".toList = "'a b.css'".toList := by decide
 
+/-- **import_target_ok** (prelude equivalence of `@import`; guard `importGuard`: the lexeme ends in exactly one `)`, an
+unquoted URL has no backslash, not a `data:` URI): the string written names the same resource as the `url(…)` read
+(`Spec.CssGrammar.importTarget`: content without surrounding white space and quotes) -/
+theorem import_target_ok (url : List Char) (h : importGuard url = true) :
+    importTarget (.mk .string (importURL url) []) = importTarget (.mk .url url []) :=
+  import_target url h
+
+example : importGuard "url( foo.css )".toList = true ∧ importGuard "url(\"a b.css\")".toList = true ∧
+    importGuard "url(x)".toList = true := by decide
+
 /-! ## comments and custom properties -/
 
 /-- **bang_comment_kept**: a comment `/*!…*/` with content is written as `/*!` + its content with white-space runs
@@ -180,19 +191,16 @@ theorem selector_equiv_xml_counterexample :
     ¬ ∀ ts : List Tok, selShape ts = true → selNorm xmlCfg (selToks ts) = selNorm xmlCfg ts := fun h =>
   absurd (h [tok .ident "linearGradient"] (by decide)) (by decide)
 
-/-- … and for a string that is not the value of the attribute selector (known finding K-C04B-15: `["b"]` → `[b]`,
-an invalid selector becomes a valid one) -/
-theorem selector_equiv_counterexample : ¬ selector_equiv_full := fun h =>
-  absurd (h htmlCfg [tok .leftBracket "[", tok .string "\"b\"", tok .rightBracket "]"]) (by decide)
-
 /-- **attr_ident_separated** (separation inside `[…]`, where the parser drops all white space; since 0ab4bcb for
 every identifier, not only `i`): an identifier directly behind an identifier or a string is written behind a
 white-space token — whatever the rest of the state is -/
 theorem attr_ident_separated (st : SelSt) (t : Tok) (r : List Tok) (hA : st.inAttr = true) (ht : t.tt = .ident)
     (hp : st.prevIdStr = true) :
     selGo st (t :: r) =
-      Verif.Model.CssGrammar.wsTok :: t :: selGo { st with prevColon := false, prevIdStr := true } r := by
-  simp [selGo, hA, ht, hp, show (TT.ident == TT.colon) = false from rfl]
+      Verif.Model.CssGrammar.wsTok :: t ::
+        selGo { st with prevColon := false, prevIdStr := true, prevMatcher := false } r := by
+  have hm : isMatcherTok t = false := by simp [isMatcherTok, ht]
+  simp [selGo, hA, ht, hp, hm, show (TT.ident == TT.colon) = false from rfl]
 
 /-- an attribute value is written without quotes only if it has no backslash: what is written is, byte for byte,
 the content of the string (no escape is re-interpreted; K-C04B-4) -/
@@ -201,6 +209,21 @@ theorem attr_unquote_plain (st : SelSt) (t : Tok) (r : List Tok) (hA : st.inAttr
     (selGo st (t :: r)).head? = some t := by
   have hb' : '\\' ∈ t.data.tail.dropLast := by simpa using hb
   by_cases hl : 2 < t.data.length <;> simp [selGo, hA, ht, hb', hl]
+
+/-- **selector_sep_outside** (separation outside `[…]`, every token list): the tokens written outside attribute
+selectors have, one by one, the kind (token class, delimiter character) of the tokens read — nothing is inserted,
+removed or merged there, identifiers are only respelled … -/
+theorem selector_sep_outside (ts : List Tok) : kindsOutside false (selToks ts) = kindsOutside false ts :=
+  kindsOutside_selToks ts
+
+/-- … hence the written tokens re-lex as themselves wherever the parser's tokens do: whether two adjacent tokens
+must be kept apart (CSS Syntax 3 §9) depends on their kinds only -/
+theorem selector_reparses (ts : List Tok) (h : sepFree (kindsOutside false ts) = true) :
+    sepFree (kindsOutside false (selToks ts)) = true := by
+  rw [selector_sep_outside]; exact h
+
+example : sepFree (kindsOutside false exSel) = true ∧
+    sepFree [kindOf (tok .ident "a"), kindOf (tok .ident "b")] = false := by decide
 
 /-! ## `!important` -/
 
@@ -249,6 +272,24 @@ def font_ok : Prop :=
     fontDen (out.flatMap Verif.Spec.CssValue.asWritten) = fontDen vs
 
 open Verif.Model.Css Verif.Model.CssShorthand Verif.Spec.CssShorthand in
+open Verif.Model.Css Verif.Model.CssShorthand Verif.Spec.CssShorthand Verif.Proofs.CssShorthand in
+/-- **font_ok** (partial; explicit decidable guard `fontGuard`: the family search of the code stops where the grammar
+puts the size or the line-height; family tokens are commas, identifiers and quoted strings without backslash that are
+no generic / CSS-wide keywords — K-C04-6 —; the IE quoting of a leading `-` does not apply): every `font` value of the
+grammar is rewritten to a value with the same component slots — style, variant, weight, stretch, size, line-height
+and the list of families -/
+theorem font_ok_partial (vs : List Tok) (d : FontDen) (hden : fontDen vs = some d) (hg : fontGuard vs = true) :
+    ∃ out, minifyFont vs = some out ∧ fontDen (out.flatMap Verif.Spec.CssValue.asWritten) = some d :=
+  Verif.Proofs.CssShorthand.font_ok_partial vs d hden hg
+
+open Verif.Model.Css Verif.Model.CssShorthand Verif.Spec.CssShorthand Verif.Proofs.CssShorthand in
+/-- the unguarded statement is false: a quoted family that is a generic keyword loses its quotes (K-C04-6, pinned by
+css_test.go) -/
+theorem font_ok_counterexample : ¬ font_ok := fun h =>
+  absurd (h [tok .dimension "12px", tok .string "\"serif\""] [tok .dimension "12px", .mk .string "serif".toList []]
+    (by decide +kernel) (by decide +kernel)) (by decide +kernel)
+
+open Verif.Model.Css Verif.Model.CssShorthand Verif.Spec.CssShorthand in
 /-- every `background` value of the grammar of CSS Backgrounds 3 §3.10 keeps the component slots of every layer -/
 def background_ok : Prop :=
   ∀ (vs : List Tok), (bgDen vs).isSome = true → bgInside vs = true → bgDen (minifyBackground vs) = bgDen vs
@@ -267,6 +308,30 @@ example : let d0 : FontDen := ⟨"normal".toList, "normal".toList, .abs 400, "no
     let pre := [tok .ident "Normal", tok .ident "italic", tok .ident "BOLD", tok .ident "normal"]
     (fillPre pre d0 []).isSome = true ∧ lexemes (pre.filterMap fontPreTok) = "italic700".toList := by decide +kernel
 
+open Verif.Model.Css Verif.Model.CssShorthand Verif.Spec.CssShorthand Verif.Proofs.CssBackground in
+/-- **background_ok** (partial; explicit decidable guard `bgLayerGuard` on every layer: no position / size component
+and no slash, at most one repeat keyword — no pair to merge —, not both `padding-box` and `border-box` — no pair to
+remove —, and the colour rewrite of the code keeps the component class and value of every token — `sTok`; for
+colours that is `Props.C04.color_ok_partial` and the colour tables): every such `background` value, any number of
+layers, keeps the component slots of every layer: image, repeat, attachment, origin, clip, colour; `none`, `scroll`,
+`transparent`, `#0000` are removed because they are the initial values; a layer that becomes empty is written `0 0`
+(the initial position).  The position / size / repeat-pair rewrites are those of the longhands (`Props.C04`:
+`bg_position_ok`, `bg_size_ok`, `bg_repeat_ok`); their composition inside the shorthand is not proved (harness:
+`spec.c04b.decl` on every generated value). -/
+theorem background_ok_partial (vs : List Tok) (ds : List BgLayer)
+    (hg : ∀ seg ∈ Verif.Spec.CssValue.splitCommas vs, bgLayerGuard seg = true) (hden : bgDen vs = some ds) :
+    bgDen (minifyBackground vs) = some ds :=
+  Verif.Proofs.CssBackground.background_ok_partial vs ds hg hden
+
+/-- `url(x) scroll no-repeat content-box , NONE fixed #FF0000` -/
+def exBg2 : List Tok :=
+  [tok .url "url(x)", tok .ident "scroll", tok .ident "no-repeat", tok .ident "content-box", tok .comma ",",
+   tok .ident "NONE", tok .ident "fixed", tok .hash "#FF0000"]
+
+open Verif.Model.Css Verif.Model.CssShorthand Verif.Spec.CssShorthand Verif.Proofs.CssBackground in
+example : (Verif.Spec.CssValue.splitCommas exBg2).all bgLayerGuard = true ∧ (bgDen exBg2).isSome = true ∧
+    lexemes (minifyBackground exBg2) = "url(x)no-repeatcontent-box,fixedred".toList := by decide +kernel
+
 /-- `normal bold 12px/normal "Times New Roman", serif` -/
 def exFont : List Tok :=
   [tok .ident "normal", tok .ident "bold", tok .dimension "12px", tok .delim "/", tok .ident "normal",
@@ -276,6 +341,11 @@ open Verif.Model.Css Verif.Model.CssShorthand Verif.Spec.CssShorthand in
 example : (minifyFont exFont).map lexemes = some "70012pxtimes new roman,serif".toList ∧
     (minifyFont exFont).map (fun o => fontDen (o.flatMap Verif.Spec.CssValue.asWritten)) = some (fontDen exFont) ∧
     (fontDen exFont).isSome = true := by decide +kernel
+
+open Verif.Model.Css Verif.Model.CssShorthand Verif.Spec.CssShorthand Verif.Proofs.CssShorthand in
+example : fontGuard exFont = true ∧ (fontDen exFont).isSome = true ∧
+    fontGuard [tok .ident "italic", tok .number "400", tok .ident "medium", tok .delim "/", tok .number "1.5",
+      tok .ident "Small", tok .ident "caps", tok .comma ",", tok .string "'Segoe UI'"] = true := by decide +kernel
 
 /-- `url(x) 0 0/auto auto repeat repeat scroll padding-box border-box transparent` -/
 def exBg : List Tok :=
